@@ -76,7 +76,7 @@ def inventory(ck, ix):
     untriaged = [t for t in found if t not in KNOWN_TABLES]
     for t in untriaged:
         ck.note(f"untriaged dict memo `{t}` in {found[t]} (not covered by an INV rule)")
-    ck.floor("G-MEMO-INV", len(found), 5, "dict memo sites discovered by idiom")
+    ck.floor("G-MEMO-INV", len(found), 3, "dict memo sites discovered by idiom")
     known_attr = {"self._computed_members", "self._graph", "self._hash", "self._dimensionality"}
     for t in attr_memos:
         if t not in known_attr:
